@@ -10,7 +10,7 @@ EXPLANATION = ('Decides from MIR: (R12.1) collision taint: joint vectors obtaine
                'element of the first half and recursion is bounded by linear_recursion_depth; (R12.5) LAND first / PARK last with the caller\'s '
                'poses, TRACE poses from steps, interpolated poses flagged LIN_INTERP with one fraction for translation and rotation; '
                '(R12.6) the stop flag is raised only after a successful probe and otherwise only loaded.  Linearity of waypoints and the '
-               'sufficiency of the check step are numerical and not decided.')
+               'sufficiency of the check step are numerical and not decided.  (R11.5) `collides` of the robot with shape is the query of its body, unchanged.')
 NOT_DECIDED = 'that waypoints lie on the straight segment and reproduce the poses (lerp/slerp + IK numerics); sufficiency of the check step'
 ASSUMPTIONS = ['KinematicsWithShape inverse methods and plan_rrt return only configurations reported collision-free (C11, C13)']
 
